@@ -1516,6 +1516,7 @@ func (tr *trans) rangeLenOf(h *ssa.BasicBlock, phi *ssa.Phi) ssa.Value {
 
 func (tr *trans) loopEnv(li *loopInfo, predIdx int, st State) *Env {
 	env := tr.funcEnv(st)
+	tr.currentParams(env)
 	h := tr.fn.Blocks[li.head]
 	for _, in := range h.Instrs {
 		if phi, ok := in.(*ssa.Phi); ok && phi.Comment == "rangeindex" {
@@ -1761,4 +1762,27 @@ func sameWrites(a, b map[int]map[string]*writeSet) bool {
 func isFieldObj(o types.Object) bool {
 	v, ok := o.(*types.Var)
 	return ok && v.IsField()
+}
+
+// currentParams: a parameter that the body assigns (Go parameters are ordinary variables) denotes, at a program
+// point - in an assertion or a loop invariant -, its current value; `name0` keeps the entry value. The binding of
+// such a parameter is removed from env so that the name resolves like a local variable.
+func (tr *trans) currentParams(env *Env) {
+	for _, p := range tr.fn.Params {
+		obj := p.Object()
+		if obj == nil {
+			continue
+		}
+		reassigned := false
+		for _, b := range tr.fn.Blocks {
+			for _, in := range b.Instrs {
+				if d, ok := in.(*ssa.DebugRef); ok && !d.IsAddr && d.Object() == obj && d.X != ssa.Value(p) {
+					reassigned = true
+				}
+			}
+		}
+		if reassigned {
+			delete(env.vars, p.Name())
+		}
+	}
 }
